@@ -8,6 +8,7 @@ import (
 	"testing"
 	"unicode/utf8"
 
+	"verif/harness/ev"
 	"verif/harness/refcbor"
 )
 
@@ -81,4 +82,11 @@ func FuzzAny(f *testing.F) {
 			t.Fatalf("VIOLATION C11/fuzz key=%s: %s", res.Key, res.Fail)
 		}
 	})
+}
+
+// FuzzTyped drives the "typed" generator (Go shapes and FDO structures) from fuzz bytes.
+func FuzzTyped(f *testing.F) {
+	f.Add([]byte{0})
+	f.Add([]byte{1, 2, 3, 4, 5, 6, 7, 8, 9, 10, 11, 12, 13, 14, 15, 16})
+	f.Fuzz(ev.Fuzz("C11", "typed", genTyped, evalTyped))
 }
